@@ -26,6 +26,54 @@ BIN_OPS = ["add", "mul", "sub", "max"]
 RED_OPS = ["add", "logaddexp", "max"]
 NAMES = ["i", "j", "k"]
 
+# parametrised ops: [class name, positional parameters]; slices are written ["slice", start, stop, step]
+OP_SPECS = [
+    ["GetitemOp", [0]],
+    ["GetitemOp", [1]],
+    ["ReshapeOp", [[2, 3]]],
+    ["ReshapeOp", [[3, 2]]],
+    ["SumOp", [0, False]],
+    ["SumOp", [0, True]],
+    ["SumOp", [None, False]],
+    ["ProdOp", [0, False]],
+    ["LogsumexpOp", [-1, False]],
+    ["LogsumexpOp", [-1, True]],
+    ["ArgmaxOp", [0, False]],
+    ["ArgmaxOp", [1, False]],
+    ["GetsliceOp", [["slice", 0, 6, None]]],
+    ["GetsliceOp", [["slice", 0, 6, 2]]],
+    ["GetsliceOp", [["slice", None, None, None]]],
+    ["GetsliceOp", [["slice", None, None, 2]]],
+    ["GetsliceOp", [["slice", 1, 6, 2]]],
+    ["GetsliceOp", [["tuple", ["slice", 0, 2, None], 1]]],
+    ["GetsliceOp", [["tuple", ["slice", 0, 2, None], 0]]],
+    ["AstypeOp", ["float32"]],
+    ["AstypeOp", ["float64"]],
+    ["PermuteOp", [[1, 0]]],
+    ["PermuteOp", [[0, 1]]],
+    ["ClampOp", [0.0, 1.0]],
+    ["ClampOp", [0.0, 2.0]],
+    ["CatOp", [0]],
+    ["CatOp", [1]],
+    ["StackOp", [0]],
+    ["StackOp", [1]],
+    ["TriangularSolveOp", [False, True]],
+    ["TriangularSolveOp", [True, False]],
+    ["StdOp", [None, 0, False]],
+    ["StdOp", [None, 1, False]],
+]
+
+
+def _op_param(x):
+    if isinstance(x, list):
+        if x and x[0] == "slice":
+            return slice(x[1], x[2], x[3])
+        if x and x[0] == "tuple":
+            return tuple(_op_param(v) for v in x[1:])
+        return tuple(_op_param(v) for v in x)
+    return x
+
+
 ###############################################################################
 # history generation (pure)
 
@@ -58,7 +106,7 @@ def gen_recipe(r):
     if c < 0.88:
         return ["domain", r.choice([["bint", 2], ["bint", 5], ["reals", [2, 2]], ["reals", [3]], ["real"], ["product", [["bint", 2], ["real"]]]])]
     if c < 0.94:
-        return ["op", r.choice([["getitem", 0], ["getitem", 1], ["reshape", [2, 3]], ["reshape", [3, 2]], ["sum", 0, False], ["sum", 0, True], ["sum", None, False]])]
+        return ["op", r.choice(OP_SPECS)]
     if c < 0.97:
         return ["ptype", r.choice(["Tensor", "Variable", "Binary", "Number"])]
     return ["slice", r.choice(NAMES), r.randrange(2), 2 + r.randrange(2), 1, 4]
@@ -317,13 +365,10 @@ class Sim:
         if t == "domain":
             return (lambda: self.domain(recipe[1])), ("domain", json.dumps(recipe[1]))
         if t == "op":
-            spec = recipe[1]
-            if spec[0] == "getitem":
-                return (lambda: ops.GetitemOp(spec[1])), ("op", json.dumps(spec))
-            if spec[0] == "reshape":
-                return (lambda: ops.ReshapeOp(tuple(spec[1]))), ("op", json.dumps(spec))
-            if spec[0] == "sum":
-                return (lambda: ops.SumOp(spec[1], spec[2])), ("op", json.dumps(spec))
+            cname, params = recipe[1]
+            cls = getattr(ops, cname)
+            args = tuple(_op_param(p) for p in params)
+            return (lambda: cls(*args)), ("op", json.dumps(recipe[1]))
         if t == "ptype":
             name = recipe[1]
             if name == "Tensor":
@@ -415,6 +460,15 @@ class Sim:
                 )
             if tuple(obj.inputs.items()) != req[2]:
                 raise Violation("I3-stale-object", "Tensor built with inputs %r has inputs %r" % (req[2], tuple(obj.inputs.items())))
+        if ev["recipe"][0] == "op":
+            cname, params = ev["recipe"][1]
+            want = tuple(_op_param(p) for p in params)
+            got = tuple(obj.defaults.values())[: len(want)]
+            if type(obj).__name__ != cname or got != want:
+                raise Violation(
+                    "I3-stale-object",
+                    "ops.%s%r returned an op of class %s with parameters %r" % (cname, want, type(obj).__name__, got),
+                )
         if ev["recipe"][0] == "var" and (obj.name != ev["recipe"][1] or obj.output is not req[1][1]):
             raise Violation("I3-stale-object", "Variable(%r, %r) returned %r" % (ev["recipe"][1], req[1][1], obj))
         if reqkey is not None:
